@@ -76,12 +76,92 @@ Proof. repeat split. Qed.
 Print Assumptions C03_source_modes.
 
 (* non-vacuity: admissible iteration orders exist, and the generated functions compute *)
-Definition idS (l : list str) : list str := l.
+Definition idS (l : list str) : list str := nodup str_eq_dec l.
 Definition idN (l : list nat) : list nat := l.
 Example C03g_ex : ok_iterS idS /\ ok_iterN idN /\
   gen_symdeldb_lookup idS idN slev_x slev_x (fun d t => Nat.ltb t d) [[67;65;70];[67;65;87];[67;70]]%N 1
     (gen_symdeldb_init idS [[67;65;70];[67;65;87];[67;70]]%N 1) false 1 [[67;65;70];[65]]%N
   = [(0, 0, 0); (0, 2, 1); (0, 1, 1)].
 Proof.
-  split; [intros l c; reflexivity|]. split; [intros l ND; split; [exact ND|intros x; reflexivity]|]. vm_compute. reflexivity.
+  split; [intros l; split; [apply NoDup_nodup|intros c; apply nodup_In]|]. split; [intros l ND; split; [exact ND|intros x; reflexivity]|].
+  vm_compute. reflexivity.
 Qed.
+
+(* ================= symdel(), self mode (seqs2 is None) - C01, C07, C14 ================= *)
+(* default distance: exactly the ordered pairs of distinct positions within max_edits, exact distance, each once *)
+Theorem C01_source_symdel_self_default : forall iterS, ok_iterS iterS -> forall k seqs,
+  let out := gen_symdel_self iterS Nat.eq_dec slev_x slev_x (fun d t => Nat.ltb t d) seqs k
+               (gen_self_is_custom CNone) (gen_self_threshold (gen_self_is_custom CNone) 0 k) in
+  (forall i j d, In (i, j, d) out <->
+     i < length seqs /\ j < length seqs /\ i <> j /\ d = slev (sget seqs i) (sget seqs j) /\ d <= k) /\
+  NoDup out.
+Proof.
+  intros iterS IS k seqs out.
+  change (gen_self_is_custom CNone) with (gen_is_custom CNone) in out.
+  change (gen_self_threshold (gen_is_custom CNone) 0 k) with (gen_threshold (gen_is_custom CNone) 0 k) in out.
+  destruct (gen_symdel_self_spec iterS IS Nat.eq_dec slev_x slev_x (fun d t => Nat.ltb t d) (gen_is_custom CNone)
+              (gen_threshold (gen_is_custom CNone) 0 k) k) with (seqs := seqs) as [M N].
+  - intros a b d H. rewrite gen_keep_lev in H. eapply keep_lev_within; eauto.
+  - intros a b. rewrite !gen_keep_lev. apply keep_lev_sym.
+  - split; [|exact N]. intros i j d. fold out in M. rewrite M, gen_keep_lev, keep_lev_spec. tauto.
+Qed.
+Print Assumptions C01_source_symdel_self_default.
+
+Definition optnat_dec : forall a b : option nat, {a = b} + {a <> b}.
+Proof. decide equality. apply Nat.eq_dec. Defined.
+Definition optQ_dec : forall a b : option Q, {a = b} + {a <> b}.
+Proof. decide equality. apply Q_eq_dec. Defined.
+
+(* Hamming mode: equal length, at most max_edits mismatches (C07) *)
+Theorem C07_source_symdel_self_hamming : forall iterS, ok_iterS iterS -> forall k seqs,
+  let out := gen_symdel_self iterS optnat_dec ham_inf slev_x gt_optnat seqs k
+               (gen_self_is_custom CHamming) (gen_self_threshold (gen_self_is_custom CHamming) None (Some k)) in
+  (forall i j d, In (i, j, d) out <->
+     i < length seqs /\ j < length seqs /\ i <> j /\
+     exists h, d = Some h /\ sham (sget seqs i) (sget seqs j) = Some h /\ h <= k) /\
+  NoDup out.
+Proof.
+  intros iterS IS k seqs out.
+  change (gen_self_is_custom CHamming) with (gen_is_custom CHamming) in out.
+  change (gen_self_threshold (gen_is_custom CHamming) None (Some k)) with (gen_threshold (gen_is_custom CHamming) None (Some k)) in out.
+  assert (Sy : forall a b, gen_keep ham_inf slev_x gt_optnat (gen_is_custom CHamming) (gen_threshold (gen_is_custom CHamming) None (Some k)) k a b
+                         = gen_keep ham_inf slev_x gt_optnat (gen_is_custom CHamming) (gen_threshold (gen_is_custom CHamming) None (Some k)) k b a).
+  { intros a b. unfold gen_keep, ham_inf, sham. cbv zeta. rewrite (Edits.ham_sym N.eq_dec a b). simpl. reflexivity. }
+  destruct (gen_symdel_self_spec iterS IS optnat_dec ham_inf slev_x gt_optnat (gen_is_custom CHamming)
+              (gen_threshold (gen_is_custom CHamming) None (Some k)) k) with (seqs := seqs) as [M N].
+  - intros a b d H. apply gen_keep_ham in H as (h & _ & H). eapply keep_ham_within; eauto.
+  - exact Sy.
+  - split; [|exact N]. intros i j d. fold out in M. rewrite M, gen_keep_ham. split.
+    + intros (Hi & Hj & Nij & h & -> & H). apply keep_ham_spec in H. eauto 10.
+    + intros (Hi & Hj & Nij & h & -> & H1 & H2). repeat split; auto. exists h. split; auto. apply keep_ham_spec. auto.
+Qed.
+Print Assumptions C07_source_symdel_self_hamming.
+
+(* custom distance (symmetric, the stated domain): inside both radii, the reported value is the custom distance (C14) *)
+Theorem C14_source_symdel_self_custom : forall iterS, ok_iterS iterS ->
+  forall (cust : str -> str -> Q), (forall a b, cust a b = cust b a) -> forall (maxc : option Q) k seqs,
+  let out := gen_symdel_self iterS optQ_dec (fun x y => Some (cust x y)) slev_x gt_optQ seqs k
+               (gen_self_is_custom CCallable) (gen_self_threshold (gen_self_is_custom CCallable) maxc (Some (inject_Z (Z.of_nat k)))) in
+  (forall i j d, In (i, j, d) out <->
+     i < length seqs /\ j < length seqs /\ i <> j /\ d = Some (cust (sget seqs i) (sget seqs j)) /\
+     slev (sget seqs i) (sget seqs j) <= k /\ qle_opt (cust (sget seqs i) (sget seqs j)) maxc = true) /\
+  NoDup out.
+Proof.
+  intros iterS IS cust CS maxc k seqs out.
+  change (gen_self_is_custom CCallable) with (gen_is_custom CCallable) in out.
+  change (gen_self_threshold (gen_is_custom CCallable) maxc (Some (inject_Z (Z.of_nat k))))
+    with (gen_threshold (gen_is_custom CCallable) maxc (Some (inject_Z (Z.of_nat k)))) in out.
+  destruct (gen_symdel_self_spec iterS IS optQ_dec (fun x y => Some (cust x y)) slev_x gt_optQ (gen_is_custom CCallable)
+              (gen_threshold (gen_is_custom CCallable) maxc (Some (inject_Z (Z.of_nat k)))) k) with (seqs := seqs) as [M N].
+  - intros a b d H. apply gen_keep_custom in H as (q & _ & H). eapply keep_custom_within; eauto.
+  - intros a b. unfold gen_keep. cbv zeta. rewrite (CS a b). rewrite !slev_x_spec. unfold slev. rewrite (lev_sym N.eq_dec a b). reflexivity.
+  - split; [|exact N]. intros i j d. fold out in M. rewrite M, gen_keep_custom. split.
+    + intros (Hi & Hj & Nij & q & -> & H). apply keep_custom_spec in H as (H1 & H2 & ->). auto 8.
+    + intros (Hi & Hj & Nij & -> & H1 & H2). repeat split; auto. eexists. split; [reflexivity|]. apply keep_custom_spec. auto.
+Qed.
+Print Assumptions C14_source_symdel_self_custom.
+
+Example C01g_self_ex :
+  gen_symdel_self idS Nat.eq_dec slev_x slev_x (fun d t => Nat.ltb t d) [[67;65;70];[67;65;87];[67;70];[67;65;70]]%N 1 false 1
+  = [(0, 3, 0); (3, 0, 0); (0, 2, 1); (2, 0, 1); (2, 3, 1); (3, 2, 1); (0, 1, 1); (1, 0, 1); (1, 3, 1); (3, 1, 1)].
+Proof. vm_compute. reflexivity. Qed.
